@@ -297,6 +297,12 @@ func RunWorker(c *Check, phaseName, tier string, seed int64, k, n, from, only in
 			jf.WriteString("E " + strconv.Itoa(i) + "\n")
 		}
 		emit(out, workerMsg{Kind: "case", Idx: i, Rec: rec})
+		if only < 0 && runtime.NumGoroutine() > 50000 {
+			// goroutines left behind by the code under observation are piling
+			// up (each check reports leaks itself): start over in a fresh process
+			emit(out, workerMsg{Kind: "recycle", Idx: i})
+			return 0
+		}
 	}
 	emit(out, workerMsg{Kind: "done"})
 	return 0
@@ -599,9 +605,9 @@ func runPhase(c *Check, ph Phase, tier string, seed int64, a *agg, scratch strin
 					return
 				}
 				restarts++
-				if restarts > 200 {
+				if restarts > 2000 {
 					a.mu.Lock()
-					a.viols["harness/too-many-crashes/"+ph.Name] = &Viol{Key: "harness/too-many-crashes/" + ph.Name, What: "worker crashed more than 200 times in one shard", Phase: ph.Name}
+					a.viols["harness/too-many-crashes/"+ph.Name] = &Viol{Key: "harness/too-many-crashes/" + ph.Name, What: "worker restarted more than 2000 times in one shard", Phase: ph.Name}
 					a.violN["harness/too-many-crashes/"+ph.Name]++
 					a.mu.Unlock()
 					return
@@ -638,6 +644,7 @@ func runOneWorker(c *Check, ph Phase, tier string, seed int64, k, n, from int, a
 		return 0, false
 	}
 	done := false
+	recycle := false
 	lastIdx := -1
 	var special *workerMsg
 	sc := bufio.NewScanner(stdout)
@@ -655,6 +662,8 @@ func runOneWorker(c *Check, ph Phase, tier string, seed int64, k, n, from int, a
 			}
 		case "done":
 			done = true
+		case "recycle":
+			recycle = true
 		case "deadlock", "hang":
 			mm := m
 			special = &mm
@@ -670,6 +679,18 @@ func runOneWorker(c *Check, ph Phase, tier string, seed int64, k, n, from int, a
 		os.Remove(journal)
 		os.Remove(stderrPath)
 		return 0, false
+	}
+	if recycle && err == nil {
+		os.Remove(journal)
+		os.Remove(stderrPath)
+		a.mu.Lock()
+		a.counts["worker_recycled_goroutine_buildup"]++
+		a.mu.Unlock()
+		nx := lastIdx + n
+		if nx >= ph.N {
+			return 0, false
+		}
+		return nx, true
 	}
 	// crashed: find culprit
 	culprit, sub := lastBegin(journal)
